@@ -111,13 +111,15 @@ pub fn build_graph<IntT: for<'a> UInt<'a>>(
                     }
                 }
 
+                // a k-mer can come from two rows (its two strands are separate rows in a file built
+                // with --single-strand): its samples are those of both, whichever row is seen first
                 let encode_full = IntT::encode_kmer_str(&full_kmer);
-                kmer_samples
-                    .entry(encode_full)
-                    .or_insert_with(|| bitset_samples.clone());
-                kmer_samples
-                    .entry(IntT::rev_comp(encode_full, len_kmer))
-                    .or_insert_with(|| bitset_samples.clone());
+                for key in [encode_full, IntT::rev_comp(encode_full, len_kmer)] {
+                    kmer_samples
+                        .entry(key)
+                        .and_modify(|samples| samples.union_with(&bitset_samples))
+                        .or_insert_with(|| bitset_samples.clone());
+                }
             }
         });
 
